@@ -309,3 +309,94 @@ def gen_program(rng, i, want=None):
     out.append("end")
     label = "G%d:%s" % (i, ",".join(sorted(g.feat))[:80])
     return label, "\n".join(out) + "\n"
+
+
+# ---------------------------------------------------------------- operand-width boundary grid (deterministic)
+
+def _decls(n, indent):
+    return [indent + "var x%d: Int = %d" % (k, k) for k in range(n)]
+
+
+def _feature(feat, mod, last, n):
+    """(statements, expected value, expected extra stdout) — `last` is the name of the highest-index local so far"""
+    lv = n - 1
+    if feat == "catch":
+        return (["var r: Int = do", "  %s.thrower(%s + 10)" % (mod, last), "catch Error() as e", "  %s + 7" % last, "end", "r"], lv + 7, "")
+    if feat == "finally-jumps":
+        st = ["var acc: Int = 0", "var i: Int = 0", "while i < 6", "  i += 1", "  do", "    continue if i == 2", "    break if i == 5",
+              "    acc += i", "  finally", "    acc += 100", "  end", "end", "acc + %s" % last]
+        return (st, 508 + lv, "")
+    if feat == "finally-return":
+        st = ["do", "  return %s + 5 if %s.later(0) > 1" % (last, mod), "finally", "  println(\"fin\")", "end", "0"]
+        return (st, lv + 5, "fin\n")
+    if feat == "labelled-break":
+        st = ["var acc: Int = 0", "$outer: for a in 1...4", "  for b in 1...4", "    break[outer] if b > 2 && a > 1", "    acc += b", "  end",
+              "end", "acc + %s" % last]
+        return (st, 13 + lv, "")
+    if feat == "later-call":
+        return (["%s.later(%s)" % (mod, last)], lv + 100, "")
+    if feat == "closure-high-local":
+        st = ["f := |q: Int|: Int ->", "  %s = %s + q" % (last, last), "  %s * 2" % last, "end", "f(3)"]
+        return (st, (lv + 3) * 2, "")
+    raise ValueError(feat)
+
+
+BOUNDARY_FEATURES = ["catch", "finally-jumps", "finally-return", "labelled-break", "later-call", "closure-high-local"]
+
+
+def boundary_programs():
+    """[(label, source, expected stdout)]: functions whose local count sits at the 8/16-bit operand boundary
+    (top level, methods with 0 and 2 parameters, closures: predefined locals shift the boundary) x constructs whose
+    offsets / indices are recorded before the prologue is inserted; constant pools and upvalue counts crossing 255;
+    bodies longer than 255 and (if the compiler accepts them) 65 535 bytes."""
+    out = []
+    k = 0
+    for n in (253, 254, 255, 256, 257):
+        for ctxt in ("top", "method0", "method2", "closure"):
+            for feat in BOUNDARY_FEATURES:
+                k += 1
+                mod = "BW%d" % k
+                st, exp, extra = _feature(feat, mod, "x%d" % (n - 1), n)
+                head = ["module " + mod, "  def thrower(a: Int): Int ! Error", "    throw Error(\"t\") if a > 3", "    a", "  end"]
+                later = ["  def later(a: Int): Int then a + 100", "end"]
+                if ctxt == "top":
+                    if feat == "finally-return":
+                        continue   # `return` at top level ends the program: covered by the other contexts
+                    src = head + later + _decls(n, "") + st[:-1] + ["println((%s).inspect)" % st[-1]]
+                elif ctxt.startswith("method"):
+                    params = "p0: Int, p1: Int" if ctxt == "method2" else ""
+                    args = "1, 2" if ctxt == "method2" else ""
+                    src = head + ["  def m(%s): Int ! Error" % params] + _decls(n, "    ") + ["    " + l for l in st] + ["  end"] + later + \
+                        ["do", "  println(%s.m(%s).inspect)" % (mod, args), "catch Error() as e", "  println(\"err\")", "end"]
+                else:
+                    src = head + later + ["g := ||: Int ! Error ->"] + _decls(n, "  ") + ["  " + l for l in st] + ["end",
+                           "do", "  println(g().inspect)", "catch Error() as e", "  println(\"err\")", "end"]
+                out.append(("boundary:locals=%d:%s:%s" % (n, ctxt, feat), "\n".join(src) + "\n", extra + "%d\n" % exp))
+    # constant pool crossing 255 entries, with a call and a do/catch behind it
+    for c in (250, 254, 255, 256, 260):
+        k += 1
+        mod = "BW%d" % k
+        body = ["    var acc: Int = 0"] + ["    acc += %d" % (100000 + j) for j in range(c)] + \
+               ["    var r: Int = do", "      %s.thrower(9)" % mod, "    catch Error() as e", "      %s.later(1)" % mod, "    end", "    acc + r"]
+        # (not `acc += do … end`: a temporary under a do/catch is the known D16 leak)
+        src = ["module " + mod, "  def thrower(a: Int): Int ! Error", "    throw Error(\"t\") if a > 3", "    a", "  end",
+               "  def m: Int ! Error"] + body + ["  end", "  def later(a: Int): Int then a + 100", "end",
+               "do", "  println(%s.m.inspect)" % mod, "catch Error() as e", "  println(\"err\")", "end"]
+        exp = sum(100000 + j for j in range(c)) + 101
+        out.append(("boundary:consts=%d" % c, "\n".join(src) + "\n", "%d\n" % exp))
+    # upvalue index crossing 255
+    for u in (254, 255, 256, 258):
+        k += 1
+        mod = "BW%d" % k
+        src = ["module " + mod, "  def m: Int"] + _decls(u, "    ") + \
+              ["    f := ||: Int ->", "      x%d = x%d + 1" % (u - 1, u - 1), "      " + " + ".join("x%d" % j for j in range(u)), "    end", "    f()", "  end", "end",
+               "println(%s.m.inspect)" % mod]
+        out.append(("boundary:upvalues=%d" % u, "\n".join(src) + "\n", "%d\n" % (sum(range(u)) + 1)))
+    # long forward / backward jumps (jump operands are 16 bit: > 255 always works, > 65 535 must be rejected or correct)
+    for stmts in (60, 12000):
+        k += 1
+        mod = "BW%d" % k
+        src = ["module " + mod, "  def m(a: Int): Int", "    var acc: Int = 0", "    var i: Int = 0", "    while i < 2", "      i += 1",
+               "      if a > 0"] + ["        acc += 3"] * stmts + ["      end", "    end", "    acc", "  end", "end", "println(%s.m(1).inspect)" % mod]
+        out.append(("boundary:jump-over=%d-statements" % stmts, "\n".join(src) + "\n", "%d\n" % (2 * 3 * stmts)))
+    return out
